@@ -129,6 +129,40 @@ impl Scenario for C06 {
                 _ => lines.insert(i, c),       // right before a record of the same kind (the observer)
             }
         }
+        // L5: noise / header-like lines with trailing comments inside sections (their parsers reject them), and a
+        // foreign section block (header, a possibly corrupted record of that section, header back) spliced into the
+        // middle of another section — sections may repeat, so this is an ordinary history of lines
+        for _ in 0..rng.below(3) {
+            let recs = section_ranges(&lines);
+            if recs.is_empty() {
+                break;
+            }
+            let (i, sec) = *rng.pick(&recs);
+            if rng.chance(1, 2) {
+                lines.insert(i, rng.pick(crate::corpus::NOISE_LINES).to_string());
+                p.faults.push("L5-noise".into());
+            } else {
+                let other: Vec<(usize, &'static str)> = recs.iter().copied().filter(|r| r.1 != sec).collect();
+                if other.is_empty() {
+                    continue;
+                }
+                let (j, osec) = *rng.pick(&other);
+                let rec = lines[j].trim_end().to_string();
+                let rec = if rng.chance(2, 3) { corrupt_record(&mut rng, &rec).unwrap_or(rec) } else { rec };
+                let extra = match osec {
+                    "General" => *rng.pick(&["Mode: 7", "Mode: x", "Mode:", "SampleSet: Wrong", "StackLeniency: NaN"]),
+                    "Difficulty" => *rng.pick(&["ApproachRate: x", "SliderMultiplier: 1e39", "OverallDifficulty:"]),
+                    _ => "",
+                };
+                let mut block = vec![format!("[{osec}]"), rec];
+                if !extra.is_empty() {
+                    block.push(extra.to_string());
+                }
+                block.push(format!("[{sec}]"));
+                lines.splice(i..i, block);
+                p.faults.push(format!("L5-foreign-section-block-{osec}-inside-{sec}"));
+            }
+        }
         p.data = lines.join("\n").into_bytes();
         p.set("dec", *rng.pick(&[0i64, 0, 0, 1, 2]));
         p
@@ -191,17 +225,31 @@ where
     st.add("steps.lines_delivered", p.log.len() as u64);
     let routed = route_text(text);
     // sanity: the probe's delivery history must be the router's (else the line map is unusable → harness error, not a verdict)
-    if routed.log.len() != p.log.len() || routed.log.iter().zip(&p.log).any(|(a, b)| a.0 != b.0 || a.1 != b.1) {
-        // framing disagreement is C05's business; here we simply cannot attribute lines
-        st.inc("probe.line-map-unavailable");
-        return Ok(());
-    }
-    let rejected: Vec<usize> = p.log.iter().enumerate().filter(|(_, l)| l.2).map(|(i, _)| i).collect();
+    let lines: Vec<&str> = text.split('\n').collect();
+    // delivery ordinal -> file line. Normally the reference router's map; if the real delivery history is not the
+    // router's (a framing disagreement — C05's business), fall back to locating each delivered line by its text, in order
+    let agree = routed.log.len() == p.log.len() && routed.log.iter().zip(&p.log).all(|(a, b)| a.0 == b.0 && a.1 == b.1);
+    let line_of: Vec<Option<usize>> = if agree {
+        routed.log.iter().map(|r| Some(r.2)).collect()
+    } else {
+        st.inc("probe.line-map-by-text-search");
+        let mut from = 0usize;
+        p.log
+            .iter()
+            .map(|(_, l, _)| {
+                let hit = (from..lines.len()).find(|&i| lines[i].trim_end() == l.as_str());
+                if let Some(i) = hit {
+                    from = i + 1;
+                }
+                hit
+            })
+            .collect()
+    };
+    let rejected: Vec<usize> = p.log.iter().enumerate().filter(|(i, l)| l.2 && line_of[*i].is_some()).map(|(i, _)| i).collect();
     if rejected.is_empty() {
         return Ok(());
     }
     st.inc("probe.runs-with-rejected-line");
-    let lines: Vec<&str> = text.split('\n').collect();
     // choose up to MAX_REMOVALS rejected lines, spread evenly (deterministic)
     let step = rejected.len().div_ceil(MAX_REMOVALS).max(1);
     for &k in rejected.iter().step_by(step) {
@@ -218,7 +266,7 @@ where
         if p.log.get(k + 1).map_or(false, |n| n.0 == sec) {
             st.inc("probe.rejected-line-followed-by-same-section-record");
         }
-        let li = routed.log[k].2;
+        let Some(li) = line_of[k] else { continue };
         let without: String = lines.iter().enumerate().filter(|(i, _)| *i != li).map(|(_, l)| *l).collect::<Vec<_>>().join("\n");
         st.inc("steps.ops_applied");
         let w = D::decode(without.as_bytes()).map_err(|e| Violation::new("C06/decode-error", "err", format!("decode failed without reader faults: {e}")))?;
